@@ -3,8 +3,8 @@ use crate::sim::Sim;
 use crate::util::{GenArgs, Trace};
 
 pub fn run_case(tr: &mut Trace, idx: u64, subseed: u64, steps: u32) {
-    tr.case(idx, subseed, &format!("core steps={steps} reserve=1 max=1"));
     let mut sim = Sim::new(subseed);
+    tr.case(idx, subseed, &format!("core steps={steps} {}", sim.header()));
     for _ in 0..steps {
         if sim.panicked.is_some() {
             break;
@@ -52,7 +52,7 @@ pub fn main(mode: &str, args: &[String]) {
                 } else if line == "end" {
                     if let Some(h) = header.take() {
                         tr.line(&h);
-                        let mut sim = Sim::new(0);
+                        let mut sim = Sim::for_replay(&h);
                         sim.replay(&acts);
                         for l in &sim.core.lines {
                             tr.line(l);
